@@ -11,9 +11,12 @@ literal numbers of the property text): the maximal runs of consecutive rows with
 row per run (ampdel: per deleted/amplified run) spanning first start .. last end, with
 summed probes and weight and the weight-averaged log2; total probes, total weight and each
 chromosome's (min start, max end) must be conserved; neighbouring outputs of a chromosome
-must differ in level; for `cn` the output cn/cn1 is the run's common value; do_call must
-equal (ci|sem) -> call -> remaining filters in the order given."""
-import os, json, itertools, math
+must differ in level; for `cn` the output cn/cn1 is the run's common value; every other field
+of a merged row (gene, depth, baf, cn, cn1, cn2, p_bintest) is what the run determines
+(expect_fields / fields_match); do_call must equal (ci|sem) -> call -> remaining filters in
+the order given, never add rows, and conserve total probes / weight without ampdel; the
+model of do_call as a whole (filters around the C01/C02 calling step) is compared end to end."""
+import os, json, itertools, math, time
 from fractions import Fraction as Fr
 import vlib
 from vlib import Err
@@ -187,6 +190,103 @@ def rows_match(out_ds, runs):
     return None
 
 
+def first_occurrences(names):
+    out = []
+    for g in names:
+        if g not in out:
+            out.append(g)
+    return out
+
+
+def exact_median(vals):
+    s = sorted(vals)
+    n = len(s)
+    return s[n // 2] if n % 2 else (s[n // 2 - 1] + s[n // 2]) / 2
+
+
+def half_weight_ok(m, vals, ws):
+    """at most half of the weight (+ the code's rounding allowance n*eps*W) strictly on either side of m"""
+    W = sum(ws)
+    slack = len(vals) * Fr(2) ** -52 * W
+    tol = Fr(1, 10 ** 9) * max(1, abs(m))
+    below = sum(w for v, w in zip(vals, ws) if v < m - tol)
+    above = sum(w for v, w in zip(vals, ws) if v > m + tol)
+    return below <= W / 2 + slack and above <= W / 2 + slack
+
+
+def expect_fields(r, cols):
+    """every remaining field of the row that replaces run r, from the run alone (exact arithmetic);
+    a value None means NaN is expected, ('range', lo, hi, check) a constrained value"""
+    ws = [Fr(d['weight']) for d in r]
+    W = sum(ws)
+    nonneg = all(w >= 0 for w in ws)
+    e = {'gene': ','.join(first_occurrences([d['gene'] for d in r]))}
+    for c in ('depth', 'baf'):
+        if c in cols:
+            xs = [F(d[c]) for d in r]
+            if W > 0:
+                e[c] = None if any(x is None for x in xs) else sum(w * x for w, x in zip(ws, xs)) / W
+            else:
+                ps = [x for x in xs if x is not None]
+                e[c] = sum(ps) / len(ps) if ps else None
+    if 'p_bintest' in cols:
+        ps = [F(d['p_bintest']) for d in r if d['p_bintest'] is not None]
+        e['p_bintest'] = max(ps) if ps else None
+    if 'cn' in cols:
+        vals = [F(d['cn']) for d in r]
+        if W > 0:
+            e['cn'] = ('wmedian', vals, ws, nonneg)
+        else:
+            e['cn'] = exact_median(vals)
+    if 'cn1' in cols:
+        pairs = [(F(d['cn1']), w) for d, w in zip(r, ws) if d['cn1'] is not None]
+        if W > 0:
+            e['cn1'] = ('wmedian', [p[0] for p in pairs], [p[1] for p in pairs], nonneg) if pairs else None
+        else:
+            e['cn1'] = exact_median([p[0] for p in pairs]) if len(pairs) == len(r) else None
+    return e
+
+
+def fields_match(o, r, cols):
+    """the merged row o against expect_fields(r): -> message or None"""
+    e = expect_fields(r, cols)
+    where = 'run %s:%d-%d' % (r[0]['chromosome'], r[0]['start'], r[-1]['end'])
+    for c, want in e.items():
+        if c not in o:
+            return 'column %s missing from the output' % c
+        got = o[c]
+        if c == 'gene':
+            if got != want:
+                return 'gene of the row for %s is %r, expected %r' % (where, got, want)
+            continue
+        if isinstance(want, tuple):
+            _, vals, ws, nonneg = want
+            if got is None:
+                return '%s of the row for %s is NaN' % (c, where)
+            g = Fr(got)
+            tol = Fr(1, 10 ** 9) * max(1, abs(g))
+            if not (min(vals) - tol <= g <= max(vals) + tol):
+                return '%s of the row for %s is %r, outside the range %s..%s of the run' % (
+                    c, where, got, float(min(vals)), float(max(vals)))
+            if nonneg and not half_weight_ok(g, vals, ws):
+                return '%s of the row for %s is %r: more than half of the weight lies on one side' % (c, where, got)
+        elif want is None:
+            if got is not None:
+                return '%s of the row for %s is %r, expected NaN' % (c, where, got)
+        elif not vlib.close(got, want):
+            return '%s of the row for %s is %r, expected %s' % (c, where, got, float(want))
+    if 'cn1' in cols:
+        if o.get('cn1') is None:
+            if o.get('cn2') is not None:
+                return 'cn2 of the row for %s is %r while cn1 is NaN' % (where, o.get('cn2'))
+        elif o.get('cn2') is None or not vlib.close(o['cn2'], Fr(o['cn']) - Fr(o['cn1'])):
+            return 'cn2 of the row for %s is %r, cn - cn1 = %r' % (where, o.get('cn2'), o['cn'] - o['cn1'])
+    for c in ('ci_lo', 'ci_hi', 'sem'):
+        if c in o:
+            return 'column %s survives the filter' % c
+    return None
+
+
 def spans(ds):
     sp = {}
     for d in ds:
@@ -254,6 +354,13 @@ def oracle(f, tab_in, tab_out):
         for r1, r2 in zip(want, want[1:]):
             if r1[0]['chromosome'] == r2[0]['chromosome'] and level_plain(f, r1[0]) == level_plain(f, r2[0]):
                 return 'bad', 'neighbouring runs share a level', 'C14_runs'
+    # every other field of each merged row (gene, depth, baf, cn, cn1, cn2, p_bintest; no ci/sem columns)
+    for o, r in zip(outs, kept):
+        m2 = fields_match(o, r, tab_in['cols'])
+        if m2:
+            return 'bad', m2, 'C14_merged_fields'
+    if len(outs) > len(ins):
+        return 'bad', 'more rows out (%d) than in (%d)' % (len(outs), len(ins)), 'C14_rows_monotone'
     if verdict == 'known':
         return 'known', msg, 'C14_runs'
     return 'ok', None, None
@@ -305,8 +412,16 @@ class Batch:
     def __init__(self, ck):
         self.ck = ck
         self.items = []
+        self.spec_runs = []
+        self.p_twice = 0.06 if ck.tier == 'quick' else 0.1
 
     def add(self, f, tab_in, tab_out, cls, compare_oracle=True, note=None):
+        # precondition of the property (tables as `call` writes them, C02): cn2 = cn - cn1 or both missing.
+        # A table that breaks it is compared model-vs-code only, whatever stream it came from.
+        if not alleles_ok(tab_in):
+            tab_in['alleles_consistent'] = False
+            compare_oracle = False
+            cls = 'edge:inconsistent-alleles'
         self.items.append((f, tab_in, tab_out, cls, compare_oracle, note))
 
     def flush(self):
@@ -354,6 +469,99 @@ class Batch:
             if diff:
                 ck.tie_break('model of %s differs from the code: %s' % (f, diff), case, code=to,
                              model=[[vlib.jsonable(x) for x in r] for r in m])
+                continue
+            if use_oracle and cls.split(':')[0] in ('rand', 'sorted', 'corpus'):
+                for r in full[:4]:
+                    self.spec_runs.append((r, ti['cols']))
+            if cls.startswith('twice'):
+                continue
+            # applying the filter a second time (C14_idempotent_*, C14_consumes)
+            if f in ('ci', 'sem'):
+                left = [c for c in ('ci_lo', 'ci_hi', 'sem') if c in to['cols']]
+                if left:
+                    ck.violation('%s leaves the segmetrics column(s) %r in its output' % (f, left), case, code=to,
+                                 clause='C14_consumes')
+                elif ck.rng.random() < self.p_twice / 4:
+                    again = run_filter(f, to)
+                    ck.count({'twice': f, 'table': to}, nontrivial=False, cls='twice:' + f)
+                    if not (isinstance(again, Err) and again.msg.startswith('ValueError')):
+                        ck.violation('%s applied to its own output does not refuse the missing columns' % f, case,
+                                     code=again, clause='C14_consumes')
+            elif use_oracle and ck.rng.random() < self.p_twice and to['rows']:
+                again = run_filter(f, to)
+                self.add(f, to, again, 'twice:' + f, note='second application')
+                if f == 'cn' and ti.get('alleles_consistent', True) and not isinstance(again, Err):
+                    d = tables_close(again, to)
+                    if d:
+                        ck.violation('cn applied twice differs from cn applied once: %s' % d, case, code=again,
+                                     expected=to, clause='C14_idempotent_cn')
+
+    def flush_all(self):
+        while self.items:
+            self.flush()
+        self.check_spec_fields()
+
+    def check_spec_fields(self):
+        """the python oracle of the merged fields against the Coq specification functions (Spec/Segfilters.v)"""
+        runs, self.spec_runs = self.spec_runs, []
+        if not runs:
+            return
+        out = vlib.model_batch_parallel('c14_spec_fields', [enc_table({'cols': cols, 'rows': [[d.get(c) for c in cols] for d in r]})
+                                                            for r, cols in runs])
+        for (r, cols), sp in zip(runs, out):
+            if isinstance(sp, Err):
+                raise RuntimeError('c14_spec_fields failed on %r: %r' % (r, sp))
+            weighted, l2, dep, bf, genes, pmax = sp
+            e = expect_fields(r, cols)
+            x = expect_row(r)
+            W = sum(Fr(d['weight']) for d in r)
+            bad = []
+            if weighted != (W > 0):
+                bad.append(('weighted', weighted, W > 0))
+            if l2 != x['log2']:
+                bad.append(('log2', l2, x['log2']))
+            if genes != e['gene']:
+                bad.append(('gene', genes, e['gene']))
+            for c, v in (('depth', dep), ('baf', bf), ('p_bintest', pmax)):
+                if c in cols and v != e[c]:
+                    bad.append((c, v, e[c]))
+            if bad:
+                raise RuntimeError('Coq specification functions disagree with the python oracle on %r: %r' % (r, bad))
+            self.ck.cls('spec-fields')
+
+
+def alleles_ok(tab):
+    """allele-specific copy numbers as do_call writes them: both present with cn2 = cn - cn1, or both missing"""
+    if 'cn1' not in tab['cols'] and 'cn2' not in tab['cols']:
+        return True
+    if not ('cn1' in tab['cols'] and 'cn2' in tab['cols'] and 'cn' in tab['cols']):
+        return False
+    for d in dicts(tab):
+        a, b = d['cn1'], d['cn2']
+        if (a is None) != (b is None):
+            return False
+        if a is not None and Fr(b) != Fr(d['cn']) - Fr(a):
+            return False
+    return True
+
+
+def tables_close(a, b):
+    """two code tables, cell by cell with the float tolerance -> message or None"""
+    if a['cols'] != b['cols']:
+        return 'columns %r vs %r' % (a['cols'], b['cols'])
+    if len(a['rows']) != len(b['rows']):
+        return 'row count %d vs %d' % (len(a['rows']), len(b['rows']))
+    for i, (r1, r2) in enumerate(zip(a['rows'], b['rows'])):
+        for c, x, y in zip(a['cols'], r1, r2):
+            if isinstance(x, str) or isinstance(y, str):
+                if x != y:
+                    return 'row %d %s: %r vs %r' % (i, c, x, y)
+            elif isnan(x) or isnan(y):
+                if not (isnan(x) and isnan(y)):
+                    return 'row %d %s: %r vs %r' % (i, c, x, y)
+            elif not vlib.close(float(x), Fr(y)):
+                return 'row %d %s: %r vs %r' % (i, c, x, y)
+    return None
 
 
 def compare_model(f, ti, to, m, ck):
@@ -583,6 +791,13 @@ def check_do_call(ck, batch, tab, filters, kw, cls):
     composed = steps[-1][2] if steps and isinstance(steps[-1][2], Err) else stage
     ck.count(case, nontrivial=len(filters) >= 2, cls=cls)
     if isinstance(res, Err) or isinstance(composed, Err):
+        from cnvlib import params
+        build = kw.get('diploid_parx_genome')
+        unsupported = build is not None and build.lower() not in params.SUPPORTED_GENOMES_FOR_PAR_HANDLING
+        if (unsupported and isinstance(res, Err) and isinstance(composed, Err)
+                and res.msg.startswith('AssertionError') and composed.msg.startswith('AssertionError')):
+            # an unsupported genome build on the purity path: both refuse; the model must refuse too
+            return {'case': case, 'filters': filters, 'tab': tab, 'called': None, 'res': res, 'pre_tab': None, 'kw': kw}
         ck.violation('do_call with filters %r raised: %r / stagewise: %r' % (filters, res, composed), case, code=res,
                      expected=composed, clause='C14_order')
         return
@@ -590,19 +805,35 @@ def check_do_call(ck, batch, tab, filters, kw, cls):
         ck.violation('do_call(filters=%r) differs from (ci|sem) -> call -> remaining filters in order' % (filters,), case,
                      code=res, expected=composed, clause='C14_order')
         return
+    # the whole of do_call: never more rows; without ampdel total probes and total weight are conserved
+    ins, outs = dicts(tab), dicts(res)
+    if len(outs) > len(ins):
+        ck.violation('do_call(filters=%r) returns more rows (%d) than it was given (%d)' % (filters, len(outs), len(ins)),
+                     case, code=res, clause='C14_do_call_conserve')
+        return
+    if 'ampdel' not in filters:
+        if sum(o['probes'] for o in outs) != sum(d['probes'] for d in ins) or \
+                not vlib.close(sum(o['weight'] for o in outs), sum(Fr(d['weight']) for d in ins)):
+            ck.violation('do_call(filters=%r) does not conserve total probes / total weight' % (filters,), case, code=res,
+                         clause='C14_do_call_conserve')
+            return
     for f, a, b in steps:
         batch.add(f, a, b, cls + ':stage-' + f)
-    return (case, filters, tab, called, res, steps[0][2] if pre else tab)
+    return {'case': case, 'filters': filters, 'tab': tab, 'called': called, 'res': res,
+            'pre_tab': steps[0][2] if pre else tab, 'kw': kw}
 
 
 def flush_chains(ck, chains):
-    chains = [c for c in chains if c]
+    chains = [c for c in chains if c and not isinstance(c['res'], Err)]
     if not chains:
         return
-    args = [[fs, enc_table(tab), enc_table(called)] for (_, fs, tab, called, _, _) in chains]
+    args = [[c['filters'], enc_table(c['tab']), enc_table(c['called'])] for c in chains]
     out = vlib.model_batch_parallel('c14_call_with_filters', args)
-    pre = vlib.model_batch_parallel('c14_pre_call', [[fs, enc_table(tab)] for (_, fs, tab, _, _, _) in chains])
-    for (case, fs, tab, called, res, pre_tab), m, p in zip(chains, out, pre):
+    pre = vlib.model_batch_parallel('c14_pre_call', [[c['filters'], enc_table(c['tab'])] for c in chains])
+    for c, m, p in zip(chains, out, pre):
+        case, fs, tab, called, res, pre_tab = c['case'], c['filters'], c['tab'], c['called'], c['res'], c['pre_tab']
+        if isinstance(res, Err):
+            continue
         if isinstance(m, Err) or isinstance(p, Err):
             raise RuntimeError('model error on %r' % (case,))
         if any(f == 'sem' and any((lambda x: x is not None and x < Fr(1, 10 ** 12))(sem_margin(d)) for d in dicts(tab))
@@ -618,6 +849,129 @@ def flush_chains(ck, chains):
         if d:
             ck.tie_break('model hands a different table to the calling step for %r: %s' % (fs, d), case, code=pre_tab,
                          model=[[vlib.jsonable(x) for x in r] for r in p])
+
+
+DEFAULT_THRESHOLDS = (-1.1, -0.25, 0.2, 0.7)
+
+
+def cfg_of(kw, tab):
+    """do_call's keyword arguments -> the model's configuration record"""
+    pur = kw.get('purity')
+    return [kw.get('method', 'threshold'), int(kw.get('ploidy', 2)), None if pur is None else Fr(pur),
+            bool(kw.get('is_haploid_x_reference', False)), bool(kw.get('is_sample_female', False)),
+            kw.get('diploid_parx_genome'), [Fr(float(x)) for x in kw.get('thresholds', DEFAULT_THRESHOLDS)],
+            'baf' in tab['cols']]
+
+
+def model_do_call(jobs):
+    """jobs: [(cfg, filters, table)] -> [(result rows | None, diag)] from the model of do_call as a whole
+    (Model/Segfilters.v do_call_model).  2**x and log2 are oracles: the model names the arguments it
+    needs, they are answered with the values the code's own libm gives, and the model is asked again."""
+    import numpy as np
+    e2 = [dict() for _ in jobs]
+    l2 = [dict() for _ in jobs]
+    done = [None] * len(jobs)
+    encs = [enc_table(t) for (_, _, t) in jobs]
+    for _round in range(6):
+        todo = [i for i in range(len(jobs)) if done[i] is None]
+        if not todo:
+            break
+        args = [[jobs[i][0], jobs[i][1], encs[i], [[k, v] for k, v in e2[i].items()], [[k, v] for k, v in l2[i].items()]]
+                for i in todo]
+        out = vlib.model_batch_parallel('c14_do_call', args)
+        for i, o in zip(todo, out):
+            if isinstance(o, Err):
+                raise RuntimeError('c14_do_call failed on %r: %r' % (jobs[i][:2], o))
+            if o[0] == 'need':
+                for q in o[1]:
+                    e2[i][q] = Fr(float(2.0 ** np.float64(float(q))))
+                for q in o[2]:
+                    l2[i][q] = Fr(float(np.log2(np.float64(float(q)))))
+            else:
+                done[i] = (o[1], o[2])
+    if any(d is None for d in done):
+        raise RuntimeError('c14_do_call: the oracle dialogue did not terminate')
+    return done
+
+
+def call_ambiguous(kw, diag, called, filters=()):
+    """does a float decision of the calling step sit on a boundary? (rounding of the absolute copy number,
+    a threshold comparison of a computed log2, rounding of the major-allele copy number)"""
+    ths = [Fr(float(x)) for x in kw.get('thresholds', DEFAULT_THRESHOLDS)]
+    computed = kw.get('purity') is not None or any(f in ('ci', 'sem') for f in filters)
+    cd = dicts(called) if called is not None and not isinstance(called, Err) else None
+    for i, (a, l2) in enumerate(diag):
+        if a is not None:
+            fracpart = a - math.floor(a)
+            if abs(fracpart - Fr(1, 2)) < Fr(1, 10 ** 6):
+                return True
+            if cd is not None and i < len(cd) and 'baf' in cd[i]:
+                b = cd[i]['baf']
+                ub = Fr(1) if b is None else abs(Fr(b) - Fr(1, 2)) + Fr(1, 2)
+                x = a * ub
+                if abs(x - math.floor(x) - Fr(1, 2)) < Fr(1, 10 ** 6):
+                    return True
+        if kw.get('method', 'threshold') == 'threshold':
+            for t in ths:
+                d = abs(l2 - t)
+                if d < Fr(1, 10 ** 9) and (d != 0 or computed):
+                    return True
+            # above the last threshold: ceil(ref * 2**log2) -- a product next to an integer is a float decision
+            if l2 > ths[-1]:
+                e = Fr(2.0 ** float(l2))
+                k = int(kw.get('ploidy', 2))
+                for r in (k, k // 2):
+                    x = r * e
+                    d = abs(x - round(x))
+                    if d < Fr(1, 10 ** 9) and (d != 0 or computed):
+                        return True
+    return False
+
+
+def flush_do_call_model(ck, chains):
+    """do_call end to end against Model/Segfilters.v do_call_model (filters + the C01/C02 calling step)"""
+    chains = [c for c in chains if c]
+    if not chains:
+        return
+    jobs = [(cfg_of(c['kw'], c['tab']), c['filters'], c['tab']) for c in chains]
+    res = model_do_call(jobs)
+    for c, (mrows, diag) in zip(chains, res):
+        case, code = c['case'], c['res']
+        ck.count({'model': case}, nontrivial=len(c['filters']) >= 1, cls='do_call_model:%s' % c['kw'].get('method', 'threshold'))
+        if any(f == 'sem' and any((lambda x: x is not None and x < Fr(1, 10 ** 12))(sem_margin(d)) for d in dicts(c['tab']))
+               for f in c['filters']):
+            ck.float_ambiguous += 1
+            continue
+        if mrows is None or isinstance(code, Err):
+            if not (mrows is None and isinstance(code, Err) and code.msg.startswith('AssertionError')):
+                ck.tie_break('model do_call and the code disagree about raising: model %s, code %r'
+                             % ('AssertionError' if mrows is None else 'a table', code), case, code=code, model=mrows)
+            continue
+        if call_ambiguous(c['kw'], diag, c['called'], c['filters']):
+            ck.float_ambiguous += 1
+            continue
+        d = compare_full(code, mrows)
+        if d:
+            ck.tie_break('model do_call(filters=%r, %r) differs from the code: %s' % (c['filters'], c['kw'], d), case,
+                         code=code, model=[[vlib.jsonable(x) for x in r] for r in mrows])
+
+
+def compare_full(to, m):
+    """code table vs model rows on every column the model carries"""
+    outs = dicts(to)
+    if len(outs) != len(m):
+        return 'row count %d vs model %d' % (len(outs), len(m))
+    for i, (o, mr) in enumerate(zip(outs, m)):
+        md = dict(zip(MODEL_OUT, mr))
+        for c in MODEL_OUT:
+            if c not in o:
+                continue
+            if c in ('chromosome', 'gene', 'start', 'end', 'probes'):
+                if o[c] != md[c]:
+                    return 'row %d %s: %r vs model %r' % (i, c, o[c], md[c])
+            elif not vlib.close(o[c], md[c]):
+                return 'row %d %s: %r vs model %r' % (i, c, o[c], None if md[c] is None else float(md[c]))
+    return None
 
 
 def compare_chain(to, m):
@@ -647,8 +1001,31 @@ def run_corpus(ck, batch):
         tab = {'cols': c['cols'], 'rows': c['rows'], 'index': c.get('index')}
         if 'cn_int' in c:
             tab['cn_int'] = c['cn_int']
+        if 'alleles_consistent' in c:
+            tab['alleles_consistent'] = c['alleles_consistent']
+
+        def expect_rows(out, want, what):
+            if want is not None and not isinstance(out, Err) and len(out['rows']) != want:
+                ck.violation('corpus case %r: %s has %d rows, the recorded behaviour is %d' % (c['name'], what, len(out['rows']), want),
+                             {'corpus': c['name']}, code=out, clause='C14 corpus')
         if c['kind'] == 'filter':
-            batch.add(c['filter'], tab, run_filter(c['filter'], tab), 'corpus', note=c.get('name'))
+            out = run_filter(c['filter'], tab)
+            expect_rows(out, c.get('expect_rows'), 'the output')
+            batch.add(c['filter'], tab, out, 'corpus', compare_oracle=c.get('oracle', True), note=c.get('name'))
+        elif c['kind'] == 'twice':
+            once = run_filter(c['filter'], tab)
+            batch.add(c['filter'], tab, once, 'corpus', note=c.get('name'))
+            if not isinstance(once, Err):
+                again = run_filter(c['filter'], once)
+                batch.add(c['filter'], once, again, 'twice:corpus', note=c.get('name'))
+                want = c.get('expect_rows') or [None, None]
+                expect_rows(once, want[0], 'the first pass')
+                expect_rows(again, want[1], 'the second pass')
+                if c['filter'] == 'cn' and c.get('alleles_consistent', True) and not isinstance(again, Err):
+                    d = tables_close(again, once)
+                    if d:
+                        ck.violation('cn applied twice differs from cn applied once: %s' % d, {'corpus': c['name']}, code=again,
+                                     expected=once, clause='C14_idempotent_cn')
         elif c['kind'] == 'do_call':
             chains.append(check_do_call(ck, batch, tab, c['filters'], c.get('kw', {}), 'corpus:do_call'))
     return chains
@@ -703,47 +1080,73 @@ def check_small_functions(ck):
 # ----------------------------------------------------------------------------
 
 def run(ck, scratch):
-    ck.rule = ('corpus (inputs of repaired defects + the canonical open finding) first; exhaustive: all level sequences of length <= L '
-               'over 3 levels x 2 chromosome splits, each table carrying cn, ci, sem columns encoding the same level sequence (quick: '
-               'filters in rotation, thorough: all four); random: segment tables with 1..6 contiguous chromosomes, 1..30 rows, gaps, '
-               'sticky level cells, weights from a dyadic grid / arbitrary floats / all zero, missing baf/cn1/cn2/p_bintest/ci/sem cells, '
-               'log2 exactly on the 1.96*sem boundary, default/shifted/permuted/sparse/string index, every applicable filter; do_call: '
-               'random tables x all 27 admissible filter lists (quick: sampled) x method threshold/clonal/none(+purity); edge: '
+    ck.rule = ('precondition on every table that meets the direct oracle: rows grouped by chromosome, and allele-specific copy numbers as '
+               '`call` writes them (cn2 = cn - cn1, or both missing; C02) -- tables breaking either are compared model-vs-code only. '
+               'corpus (inputs of repaired defects, the canonical open finding, the witnesses of the _refuted theorems) first; exhaustive: all '
+               'level sequences of length <= L over 3 levels x 2 chromosome splits, each table carrying cn, ci, sem columns encoding the same '
+               'level sequence (quick: filters in rotation, thorough: all four); random: segment tables with 1..6 contiguous chromosomes, '
+               '1..30 rows, gaps, sticky level cells, weights from a dyadic grid / arbitrary floats / all zero, missing '
+               'baf/cn1/cn2/p_bintest/ci/sem cells, log2 exactly on the 1.96*sem boundary, default/shifted/permuted/sparse/string index, '
+               'every applicable filter; sorted: the same tables with shuffled rows after GenomicArray.sort (contiguity checked, then '
+               'filtered); every output row is checked field by field (gene, depth, baf, cn, cn1, cn2, p_bintest, dropped ci/sem columns) '
+               'against an exact-arithmetic oracle that is itself cross-checked against the Coq specification functions; a sample of '
+               'outputs is filtered a second time (cn: twice = once; ampdel: model vs code; ci/sem: must refuse); do_call: every '
+               'admissible filter list (27) x method threshold/clonal/none + every list with purity < 1, random '
+               'ploidy/sexes/PAR build/thresholds, against the stagewise composition by the code AND end to end against the model with '
+               'the C01/C02 calling step (2**x and log2 supplied by the code\'s libm on the arguments the model asks for); edge: '
                'non-contiguous chromosomes, inverted CIs, inconsistent allele columns (model vs code only). non-trivial = the table has '
                'more than one run and at least one run of more than one row; distinct by case hash')
     ck.exhaustive = True
     ck.explanation = 'exhaustive: true refers to the enumerated level-sequence scope only (coverage.exhaustive_scope)'
     ck.unproved_remainder = [
-        'the calling step between the two filter blocks of do_call is an uninterpreted function in C14_order (C01/C02 speak about it)',
         'pandas groupby / numpy float summation are outside the model; tied by the correspondence run only',
-        'C14_conserve states the weighted-median clause for cn/cn1 under the cn filter (runs of equal cn); the cn of a run merged by '
-        'ci/sem/ampdel (weighted median of different cn) is compared model-vs-code only',
+        'the calling step inside do_call is the C01/C02/C18 model composed with the filters (C14_do_call*); 2**x and np.log2 are oracles '
+        'supplied by the harness; VCF-derived baf (variants=...) is C18\'s and not part of the C14 model (the baf column of the table is)',
+        'the weighted-median clause of C14_merged_fields is exact up to the code\'s own rounding allowance n*2^-52*W and needs '
+        'non-negative weights; range and constancy hold for all weights',
+        'tables whose chromosomes are interleaved (possible only through the Python API, never after GenomicArray.sort with '
+        'distinguishable names) are merged across chromosomes: C14_interleaved_refuted; the harness compares them model-vs-code only',
+        'source ties (C14_source_*): the masked level assignments of ampdel / ci / sem are translated from the function bodies; '
+        'squash_region, squash_by_groups, enumerate_changes and the filter loop of do_call are pandas code outside the '
+        'function translator and stay tied by fingerprints (tools/genspecs/c14.py) + the correspondence run',
     ]
     if not ck.build_status.get('driver_ok'):
         raise RuntimeError('model driver unavailable')
     quick = ck.tier == 'quick'
+    phases = ck.extra.setdefault('phase_s', {})
+    t_last = [time.time()]
+
+    def phase(name):
+        now = time.time()
+        phases[name] = round(phases.get(name, 0) + now - t_last[0], 1)
+        t_last[0] = now
+
     batch = Batch(ck)
     chains = run_corpus(ck, batch)
-    batch.flush()
+    batch.flush_all()
     flush_chains(ck, chains)
+    flush_do_call_model(ck, chains)
+    phase('corpus')
     check_small_functions(ck)
+    phase('small')
 
     # exhaustive scope
     L = 6 if quick else 7
     nex = 0
     for seq, split, tab in exhaustive_tables(L):
-        fl = [FILTERS[nex % 4]] if quick else FILTERS
+        fl = [FILTERS[nex % 4]] if quick else (FILTERS if len(seq) <= 6 else [FILTERS[nex % 4], FILTERS[(nex + 2) % 4]])
         for f in fl:
             batch.add(f, tab, run_filter(f, tab), 'exh:' + f)
         nex += 1
         if len(batch.items) >= 2000:
             batch.flush()
-    batch.flush()
+    batch.flush_all()
+    phase('exhaustive')
     ck.extra['exhaustive_scope'] = ('all level sequences of length <= %d over 3 levels x 2 chromosome splits: %d tables, %s'
-                                    % (L, nex, 'one filter each in rotation' if quick else 'all four filters each'))
+                                    % (L, nex, 'one filter each in rotation' if quick else 'all four filters each up to length 6, two in rotation at length 7'))
 
     # random valid stream: every applicable filter directly
-    nrand = 260 if quick else 6000
+    nrand = 260 if quick else 5000
     for i in range(nrand):
         need = ck.rng.choice([('cn',), ('cn', 'cn1', 'cn2'), ('ci_lo', 'ci_hi'), ('sem',), ('cn', 'ci_lo', 'ci_hi', 'sem')])
         tab = gen_table(ck.rng, need=need)
@@ -754,7 +1157,8 @@ def run(ck, scratch):
             batch.add(f, tab, run_filter(f, tab), 'rand:' + f)
         if len(batch.items) >= 2000:
             batch.flush()
-    batch.flush()
+    batch.flush_all()
+    phase('random')
 
     # edge stream: model vs code only
     nedge = 60 if quick else 1200
@@ -774,7 +1178,6 @@ def run(ck, scratch):
                 r[ci['cn1']] = ck.rng.choice([None, 0.0, 1.0, 2.0, 3.0])
                 r[ci['cn2']] = ck.rng.choice([None, 0.0, 1.0, 2.0])
             tab['alleles_consistent'] = False
-            use_oracle = True
         elif kind == 'negative-sem':
             for r in tab['rows']:
                 if r[ci['sem']] is not None and ck.rng.random() < 0.5:
@@ -787,46 +1190,126 @@ def run(ck, scratch):
             use_oracle = True
         for f in ck.rng.sample(FILTERS, 2):
             batch.add(f, tab, run_filter(f, tab), 'edge:' + kind, compare_oracle=use_oracle)
-    batch.flush()
+    batch.flush_all()
+    phase('edge')
 
-    # do_call: ordering of the filters
+    # tables as GenomicArray.sort leaves them (C14_sorted_contig): shuffled rows, sorted by the code
+    nsort = 50 if quick else 1500
+    sort_jobs = []
+    for i in range(nsort):
+        tab = gen_table(ck.rng, need=ck.rng.choice([('cn',), ('cn', 'cn1', 'cn2'), ('ci_lo', 'ci_hi'), ('sem',)]))
+        tab['index'] = None
+        ck.rng.shuffle(tab['rows'])
+        arr = mk_array(tab)
+        arr.sort()
+        st = table_of(arr)
+        st = {'cols': [c for c in tab['cols']], 'rows': [[d[c] for c in tab['cols']] for d in dicts(st)], 'index': None}
+        sort_jobs.append((tab, st))
+    sort_model = vlib.model_batch_parallel('c14_sort', [enc_table(t) for t, _ in sort_jobs])
+    for (tab, st), sm in zip(sort_jobs, sort_model):
+        if isinstance(sm, Err):
+            raise RuntimeError('c14_sort failed: %r' % (sm,))
+        order, separable = sm
+        names = [r[0] for r in st['rows']]
+        contig = all(names[i] == names[i - 1] or names[i] not in names[:i] for i in range(1, len(names)))
+        case = {'sorted': st}
+        ck.count(case, nontrivial=len(set(names)) > 1, cls='sorted:separable' if separable else 'sorted:shared-key')
+        if separable and not contig:
+            ck.violation('GenomicArray.sort leaves the rows of one chromosome apart although the chromosome names have distinct sort keys',
+                         case, code=st, clause='C14_sorted_contig')
+            continue
+        if [[r[0], r[1], r[2]] for r in st['rows']] != order:
+            ck.tie_break('model sort order differs from GenomicArray.sort', case, code=st, model=order)
+            continue
+        fs = [f for f in FILTERS if all(c in st['cols'] for c in NEEDS[f])]
+        for f in ck.rng.sample(fs, 1):
+            batch.add(f, st, run_filter(f, st), 'sorted:' + f if contig else 'edge:sorted-interleaved', compare_oracle=contig)
+    batch.flush_all()
+    phase('sorted')
+
+    # do_call: ordering of the filters, and do_call as a whole against the model with the real calling step
     lists = admissible_filter_lists()
     ck.extra['admissible_filter_lists'] = len(lists)
     chains = []
-    ncall = 40 if quick else 500
-    for i in range(ncall):
-        with_cn = ck.rng.random() < 0.3
-        need = ['ci_lo', 'ci_hi', 'sem'] + (['cn'] if with_cn else [])
-        tab = gen_table(ck.rng, need=need, nseg=ck.rng.randint(2, 30))
-        if not with_cn:
-            for c in ('cn', 'cn1', 'cn2'):
-                if c in tab['cols']:
-                    k = tab['cols'].index(c)
-                    tab['cols'].pop(k)
-                    for r in tab['rows']:
-                        r.pop(k)
-        method = ck.rng.choice(['threshold', 'threshold', 'clonal', 'none'] if with_cn else ['threshold', 'threshold', 'clonal'])
-        kw = {'method': method}
-        if method == 'clonal' and ck.rng.random() < 0.5:
-            kw['purity'] = ck.rng.choice([0.5, 0.7, 0.9])
-        if method != 'none' and ck.rng.random() < 0.2:
-            kw['ploidy'] = ck.rng.choice([2, 3, 4])
-        # make amplifications/deletions likely
-        k = tab['cols'].index('log2')
-        for r in tab['rows']:
-            if ck.rng.random() < 0.4:
-                r[k] = ck.rng.choice([-5.0, -2.0, 1.4, 1.6, 2.0, 1.33])
-        which = lists if not quick else ck.rng.sample(lists, 3)
-        if not quick:
-            which = ck.rng.sample(lists, 9)
-        for fs in which:
+    combos = [(fs, m, False) for fs in lists for m in ('threshold', 'clonal', 'none')]
+    combos += [(fs, ck.rng.choice(['threshold', 'clonal', 'none']), True) for fs in lists]
+    reps = 1 if quick else 8
+    ck.extra['do_call_combinations'] = ('every admissible filter list (27) x method threshold / clonal / none, plus every list once with '
+                                        'purity < 1 (rescaled log2): %d combinations x %d table(s) each' % (len(combos), reps))
+    for rep in range(reps):
+        for fs, method, with_purity in combos:
+            need = set()
+            if 'ci' in fs:
+                need |= {'ci_lo', 'ci_hi'}
+            if 'sem' in fs:
+                need.add('sem')
+            with_cn = method == 'none' or ck.rng.random() < 0.2
+            if with_cn:
+                need.add('cn')
+            tab = gen_table(ck.rng, need=sorted(need), nchrom=ck.rng.randint(1, 3), nseg=ck.rng.randint(3, 14 if quick else 30))
+            if not with_cn:
+                for c in ('cn', 'cn1', 'cn2'):
+                    if c in tab['cols']:
+                        k = tab['cols'].index(c)
+                        tab['cols'].pop(k)
+                        for r in tab['rows']:
+                            r.pop(k)
+            if method != 'none' and 'baf' not in tab['cols']:
+                # without a baf column do_call rewrites cn but leaves cn1/cn2 as they were: stale alleles are
+                # outside the precondition (cn2 = cn - cn1), so such tables carry none
+                for c in ('cn1', 'cn2'):
+                    if c in tab['cols']:
+                        k = tab['cols'].index(c)
+                        tab['cols'].pop(k)
+                        for r in tab['rows']:
+                            r.pop(k)
+            kw = {'method': method}
+            if with_purity:
+                kw['purity'] = ck.rng.choice([0.5, 0.7, 0.9, 0.3])
+            elif ck.rng.random() < 0.1:
+                kw['purity'] = ck.rng.choice([1.0, 1.5])
+            if ck.rng.random() < 0.25:
+                kw['ploidy'] = ck.rng.choice([2, 3, 4])
+            if ck.rng.random() < 0.25:
+                kw['is_haploid_x_reference'] = True
+            if ck.rng.random() < 0.25:
+                kw['is_sample_female'] = True
+            if ck.rng.random() < 0.15:
+                kw['diploid_parx_genome'] = ck.rng.choice(['grch38', 'GRCh37', 'grch38', 'hg19'])
+            if method == 'threshold' and ck.rng.random() < 0.2:
+                kw['thresholds'] = ck.rng.choice([(-1.0, -0.4, 0.3, 0.8), (-2.0, -1.0, -0.3, 0.3, 0.7, 1.1), (0.0,)])
+            # make amplifications/deletions likely
+            k = tab['cols'].index('log2')
+            for r in tab['rows']:
+                if ck.rng.random() < 0.4:
+                    r[k] = ck.rng.choice([-5.0, -2.0, 1.4, 1.6, 2.0, 1.33] + [float(x) for x in kw.get('thresholds', DEFAULT_THRESHOLDS)])
+            # ... and plant like runs separated only by an unlike one (amplified / neutral / amplified, deleted / gain /
+            # deleted): the pattern on which the ORDER of ampdel and cn shows
+            rows = tab['rows']
+            spots = [i for i in range(len(rows) - 2) if rows[i][0] == rows[i + 1][0] == rows[i + 2][0]]
+            if spots and ck.rng.random() < 0.8:
+                i = ck.rng.choice(spots)
+                outer, inner, cno, cni = ck.rng.choice([(2.0, 0.0, 8, 2), (-5.0, 0.4, 0, 3), (1.6, 0.5, 6, 3), (-5.0, 0.0, 0, 2)])
+                for j, (l2v, cnv) in zip((i, i + 1, i + 2), ((outer, cno), (inner, cni), (outer, cno))):
+                    rows[j][k] = l2v
+                    if 'cn' in tab['cols']:
+                        rows[j][tab['cols'].index('cn')] = cnv
+                        if 'cn1' in tab['cols']:
+                            rows[j][tab['cols'].index('cn1')] = float(cnv - cnv // 2)
+                            rows[j][tab['cols'].index('cn2')] = float(cnv // 2)
+                    for c, v in (('baf', 0.5), ('sem', 0.05), ('ci_lo', l2v - 0.1), ('ci_hi', l2v + 0.1)):
+                        if c in tab['cols']:
+                            rows[j][tab['cols'].index(c)] = v
             chains.append(check_do_call(ck, batch, tab, fs, kw, 'do_call:%s' % method))
-        if len(batch.items) >= 1500:
-            batch.flush()
-            flush_chains(ck, chains)
-            chains = []
-    batch.flush()
+            if len(batch.items) >= 1500:
+                batch.flush_all()
+                flush_chains(ck, chains)
+                flush_do_call_model(ck, chains)
+                chains = []
+    batch.flush_all()
     flush_chains(ck, chains)
+    flush_do_call_model(ck, chains)
+    phase('do_call')
 
 
 def replay(ck, body):
